@@ -337,7 +337,7 @@ where
 		0
 	};
 
-	let _ = batch.save(OutputData {
+	batch.save(OutputData {
 		root_key_id: parent_key_id.clone(),
 		key_id: output.key_id,
 		n_child: output.n_child,
@@ -349,7 +349,7 @@ where
 		lock_height: output.lock_height,
 		is_coinbase: output.is_coinbase,
 		tx_log_entry: Some(log_id),
-	});
+	})?;
 
 	let max_child_index = *found_parents.get(&parent_key_id).unwrap();
 	if output.n_child >= max_child_index {
